@@ -1,7 +1,7 @@
 # /verif/Makefile — builds libdjinterop (from /repo's own CMakeLists.txt, out of tree)
 # in two instrumented variants and the model-checking harness `vx` on top of each.
 REPO      ?= /repo
-BUILD     ?= /verif/build
+BUILD     ?= $(CURDIR)/build
 JOBS      ?= 16
 CXX       := /usr/bin/g++
 
